@@ -134,6 +134,7 @@ structure Mon where
   cbOwn : List (Nat × Nat) := []                -- callback object ↦ thread that registered it
   linked : Nat → Bool := fun _ => false         -- the thread's callback is in the list
   inHand : Nat → Bool := fun _ => false         -- … dequeued by request_stop, finished store not yet done
+  sawTO : Nat → Bool := fun _ => false          -- (C07d) the current wait saw `reason == timeout` (cv.woke, entry still linked)
 
 def isWaitOp (s : String) : Bool :=
   s == "inv.wait" || s == "inv.waitp" || s == "inv.twait" || s == "inv.twaitp" || s == "inv.swaitp" ||
@@ -159,7 +160,7 @@ def monStep (n : Nat) (m : Mon) (l : Line) : Mon :=
     let m := if m.uOwner != some t then
       { m with viol := s!"thread {t} called wait without owning the user lock (harness error)" :: m.viol } else m
     { m with curOp := upd m.curOp t l.site, inWait := upd m.inWait t true,
-             resumedSinceEnq := upd m.resumedSinceEnq t false }
+             resumedSinceEnq := upd m.resumedSinceEnq t false, sawTO := upd m.sawTO t false }
   | "set" => { m with flag := l.a != 0 }
   | "ul.acq" => uAcq m t
   | "ul.rel" => uRel m t
@@ -170,7 +171,7 @@ def monStep (n : Nat) (m : Mon) (l : Line) : Mon :=
     let g := l.a.toNat
     { m with waiting := upd m.waiting g false, resumedSinceEnq := upd m.resumedSinceEnq g true,
              owed := upd m.owed t ((m.owed t).erase g) }
-  | "cv.woke" => { m with waiting := upd m.waiting t false }
+  | "cv.woke" => { m with waiting := upd m.waiting t false, sawTO := if l.a != 0 then upd m.sawTO t true else m.sawTO }
   | "cv.none" =>
     let ws := (List.range n).filter (fun w => m.waiting w)
     if ws.isEmpty then m else
@@ -202,7 +203,10 @@ def monStep (n : Nat) (m : Mon) (l : Line) : Mon :=
       [s!"thread {t}: stop-token wait returned with its stop callback still registered (dangling callback)"] else []
     let v9 := if (op == "inv.swaitp" || op == "inv.stwaitp") && m.inHand t then
       [s!"thread {t}: stop-token wait returned while request_stop was still running its stop callback (dangling callback)"] else []
-    { m with viol := v0 ++ v1 ++ v2 ++ v3 ++ v4 ++ v5 ++ v6 ++ v7 ++ v8 ++ v9 ++ m.viol, inWait := upd m.inWait t false,
+    -- (C07d) exact characterisation of a false result of the timed stop-token wait
+    let v10 := if op == "inv.stwaitp" && r == 0 && !m.stopWon && !m.sawTO t then
+      [s!"thread {t}: timed stop-token wait returned false although stop was never requested and the call saw no timeout"] else []
+    { m with viol := v0 ++ v1 ++ v2 ++ v3 ++ v4 ++ v5 ++ v6 ++ v7 ++ v8 ++ v9 ++ v10 ++ m.viol, inWait := upd m.inWait t false,
              owed := upd m.owed t [], stopRet := m.stopRet || op == "inv.stop" }
   | "stop.acq" => if l.b == 1 then { m with stopWon := true } else m
   | "stop.push" =>
